@@ -82,7 +82,7 @@ def reference_behaviours(repo):
 
 
 # ------------------------------------------------------------------------------------ child side
-def _child_main(rfd, wfd, workdir, decl, opts, bytecode_on, refs, free_run):
+def _child_main(rfd, wfd, workdir, decl, opts, bytecode_on, refs, free_run, more_defs=()):
     rf = os.fdopen(rfd, "r")
     wf = os.fdopen(wfd, "w")
     sys.dont_write_bytecode = not bytecode_on
@@ -212,32 +212,47 @@ def _child_main(rfd, wfd, workdir, decl, opts, bytecode_on, refs, free_run):
     tempfile.mkstemp = p_mkstemp
     os.fdopen = p_fdopen
 
-    with real_open(os.path.join(workdir, "m.py"), "w") as fh:
-        fh.write(source(decl, opts))
+    import importlib
     sys.path.insert(0, workdir)
-    outcome = None
-    try:
-        import m        # the class definition runs the cache protocol
-        b = behaviour(m.X)
-        if b == refs[decl]:
-            outcome = "own"
-        else:
-            other = [k for k, v in refs.items() if v == b]
-            outcome = "foreign:%s" % other[0] if other else "wrong:%s" % json.dumps(b)[:200]
+    earlier = []          # classes defined earlier in this process keep behaving per their own declaration
+    mobj = None
+    defs = [(decl, opts)] + list(more_defs)
+    for i, (dcl, op) in enumerate(defs):
+        with real_open(os.path.join(workdir, "m.py"), "w") as fh:
+            fh.write(source(dcl, op) + "# definition %d %s\n" % (i, "#" * i))
+        # the defining module itself must not be served from stale bytecode (same size, same second)
+        shutil.rmtree(os.path.join(workdir, "__pycache__"), ignore_errors=True)
+        outcome = None
         cookie = None
-        for fn in ("pack_impl", "unpack_impl"):
-            g = getattr(getattr(m.X, fn), "__globals__", {})
-            cookie = g.get("BISTURI_PACKET_COOKIE", cookie)
-    except BaseException as e:
-        outcome = "failed:%s" % type(e).__name__
-        cookie = None
-    free_run = False
-    send({"ev": "done", "outcome": outcome, "cookie": cookie})
+        try:
+            importlib.invalidate_caches()
+            if mobj is None:
+                import m as mobj        # the class definition runs the cache protocol
+            else:
+                mobj = importlib.reload(mobj)
+            b = behaviour(mobj.X)
+            if b == refs[dcl]:
+                outcome = "own"
+            else:
+                other = [k for k, v in refs.items() if v == b]
+                outcome = "foreign:%s" % other[0] if other else "wrong:%s" % json.dumps(b)[:200]
+            for fn in ("pack_impl", "unpack_impl"):
+                g = getattr(getattr(mobj.X, fn), "__globals__", {})
+                cookie = g.get("BISTURI_PACKET_COOKIE", cookie)
+            for (d0, cls0) in earlier:
+                if behaviour(cls0) != refs[d0]:
+                    outcome = "earlier_class_changed:%s" % d0
+            earlier.append((dcl, mobj.X))
+        except BaseException as e:
+            outcome = "failed:%s" % type(e).__name__
+        last = i == len(defs) - 1
+        wf.write(json.dumps({"ev": "done", "outcome": outcome, "cookie": cookie, "more": not last, "decl": dcl}) + "\n")
+        wf.flush()
     os._exit(0)
 
 
 class Child:
-    def __init__(self, base, name, decl, opts="default", bytecode_on=False, refs=None, free_run=False):
+    def __init__(self, base, name, decl, opts="default", bytecode_on=False, refs=None, free_run=False, more_defs=()):
         self.name, self.decl = name, decl
         self.workdir = os.path.join(base, name)
         os.makedirs(self.workdir, exist_ok=True)
@@ -251,7 +266,7 @@ class Child:
             os.close(c2p_r)
             os.close(p2c_w)
             try:
-                _child_main(p2c_r, c2p_w, self.workdir, decl, opts, bytecode_on, refs, free_run)
+                _child_main(p2c_r, c2p_w, self.workdir, decl, opts, bytecode_on, refs, free_run, more_defs)
             finally:
                 os._exit(19)
         os.close(c2p_w)
@@ -262,6 +277,7 @@ class Child:
         self.trace = []          # events and results, in order
         self.pending = None      # the event the child is blocked at
         self.outcome = None
+        self.outcomes = []
         self.dead = False
         self.crashed = False
 
@@ -289,8 +305,10 @@ class Child:
             elif msg["ev"] == "done":
                 self.trace.append(msg)
                 self.outcome = msg["outcome"]
+                self.outcomes.append((msg.get("decl"), msg["outcome"]))
                 self.cookie = msg.get("cookie")
-                self.dead = True
+                if not msg.get("more"):
+                    self.dead = True
             else:
                 self.pending = msg
 
@@ -318,10 +336,14 @@ class Child:
         self.dead = True
         self.wait()
 
-    def run_to_end(self):
+    def run_to_end(self, after_event=None):
+        """after_event(child, event_name): called by the controller after each event was performed"""
         self.advance()
         while self.pending is not None:
+            ev = self.pending["ev"]
             self.go()
+            if after_event is not None:
+                after_event(self, ev)
         self.wait()
 
     def wait(self):
@@ -349,9 +371,9 @@ class World:
         self.bytecode_on = bytecode_on
         self.n = 0
 
-    def child(self, decl, opts="default", free_run=False):
+    def child(self, decl, opts="default", free_run=False, more_defs=()):
         self.n += 1
-        c = Child(self.base, "c%d" % self.n, decl, opts, self.bytecode_on, self.refs, free_run)
+        c = Child(self.base, "c%d" % self.n, decl, opts, self.bytecode_on, self.refs, free_run, more_defs)
         if not free_run:
             c.advance()
         return c
